@@ -118,9 +118,10 @@ template<typename C, typename M> struct Pair
         m.push_back((int64_t)ov.size); for (size_t i = 0; i < ov.size && i < sink.size(); i++) { m.push_back((int64_t)sink[i].first); enc_copt(m, sink[i].second); } \
         g_sink = nullptr; return true; }                                                    \
     if (op.name == "find_range_fill") {                                                     \
-        std::vector<std::pair<K, std::optional<V>>> ko; for (auto k : op.ks) ko.emplace_back(k, std::nullopt);            \
+        /* slots whose random value is odd arrive pre-filled (the caller may pass any optional) */                        \
+        std::vector<std::pair<K, std::optional<V>>> ko; for (size_t i = 0; i < op.ks.size(); i++) ko.emplace_back(op.ks[i], (op.vs[i] & 1) ? std::optional<V>{op.vs[i]} : std::nullopt); \
         c.find_range_fill(ko REALPEEK); for (auto& [k, o] : ko) { r.push_back((int64_t)k); enc_opt(r, o); }              \
-        std::vector<cstl_pair_kopt> k2; for (auto k : op.ks) k2.push_back(cstl_pair_kopt{k, cstl_opt{false, 0}});        \
+        std::vector<cstl_pair_kopt> k2; for (size_t i = 0; i < op.ks.size(); i++) k2.push_back(cstl_pair_kopt{op.ks[i], cstl_opt{(op.vs[i] & 1) != 0, (op.vs[i] & 1) ? op.vs[i] : 0}}); \
         cstl_range_kopt rg{k2.size(), k2.data()}; PFX##__find_range_fill(&mo, &rg MODELPEEKARG);                          \
         for (auto& e : k2) { m.push_back((int64_t)e.first); enc_copt(m, e.second); } return true; }
 
